@@ -35,6 +35,7 @@ type Loc struct {
 	lvl   int
 	acc   func(h string) string
 	upd   func(h, v string) string
+	outer string // outer index written (object ref / array id / map ref)
 	T     types.Type
 	blank bool
 }
@@ -47,7 +48,7 @@ func cellPrefix(T types.Type) string {
 }
 
 func (vc *VC) derefLoc(ref string, elemT types.Type) Loc {
-	return Loc{comp: cellPrefix(elemT), lvl: 1, T: elemT,
+	return Loc{comp: cellPrefix(elemT), lvl: 1, T: elemT, outer: ref,
 		acc: func(h string) string { return sel(h, ref) },
 		upd: func(h, v string) string { return sto(h, ref, v) }}
 }
@@ -86,7 +87,7 @@ func (vc *VC) store(st *State, l Loc, val *Value) {
 		st.env[l.obj] = setPath(st.env[l.obj], l.path, val)
 		return
 	}
-	vc.storeShape(st, l.comp, l.T, l.lvl, l.upd, val)
+	vc.storeShape(st, l.comp, l.T, l.lvl, l.outer, l.upd, val)
 }
 
 func setPath(v *Value, path []string, val *Value) *Value {
@@ -204,9 +205,9 @@ func (vc *VC) evalLoc(st *State, e ast.Expr) Loc {
 				pos = app("+", s.Off, i.Term)
 			}
 			arr := s.Arr
-			return Loc{comp: elemCompPrefix(u.Elem()), lvl: 2, T: u.Elem(),
-				acc: func(h string) string { return sel(sel(h, arr), pos) },
-				upd: func(h, v string) string { return sto(h, arr, sto(sel(h, arr), pos, v)) }}
+			return Loc{comp: elemCompPrefix(u.Elem()), lvl: 2, T: u.Elem(), outer: arr,
+				acc: func(h string) string { return sel2(h, arr, pos) },
+				upd: func(h, v string) string { return sto2(h, arr, pos, v) }}
 		case *types.Map:
 			m := vc.evalExpr(st, x.X)
 			k := vc.evalExpr(st, x.Index)
@@ -215,9 +216,9 @@ func (vc *VC) evalLoc(st *State, e ast.Expr) Loc {
 			mref := m.Term
 			mp := mapCompPrefix(bt)
 			// writing a map element also sets the domain bit; done by the caller through mapStore
-			return Loc{comp: mp + ".val", lvl: 2, T: u.Elem(),
-				acc: func(h string) string { return sel(sel(h, mref), kt) },
-				upd: func(h, v string) string { return sto(h, mref, sto(sel(h, mref), kt, v)) }}
+			return Loc{comp: mp + ".val", lvl: 2, T: u.Elem(), outer: mref,
+				acc: func(h string) string { return sel2(h, mref, kt) },
+				upd: func(h, v string) string { return sto2(h, mref, kt, v) }}
 		case *types.Pointer: // pointer to array
 			vc.unsupported(e, "index of pointer to array")
 		}
@@ -230,14 +231,40 @@ func (vc *VC) evalLoc(st *State, e ast.Expr) Loc {
 func mapCompPrefix(T types.Type) string { return "map:" + typeKey(T) }
 
 func (vc *VC) mapKeyTerm(n ast.Node, k *Value) string {
-	if k.K == VInt {
-		return k.Term
-	}
-	if k.K == VBool {
-		return smtIte(k.Term, "1", "0")
+	if t, ok := scalarOf(k); ok {
+		return t
 	}
 	vc.unsupported(n, "map key of composite type")
 	return ""
+}
+
+// scalarOf: the single scalar leaf of a value (structs wrapping one scalar count as scalars).
+func scalarOf(k *Value) (string, bool) {
+	switch k.K {
+	case VInt:
+		return k.Term, true
+	case VBool:
+		return smtIte(k.Term, "1", "0"), true
+	case VStruct:
+		if len(k.FOrder) == 1 {
+			return scalarOf(k.Fields[k.FOrder[0]])
+		}
+	}
+	return "", false
+}
+
+// wrapScalar builds a value of type T whose single scalar leaf is term (inverse of scalarOf).
+func wrapScalar(T types.Type, term string) *Value {
+	if T != nil {
+		if s, ok := under(T).(*types.Struct); ok && s.NumFields() == 1 {
+			f := s.Field(0)
+			return &Value{K: VStruct, T: T, Fields: map[string]*Value{f.Name(): wrapScalar(f.Type(), term)}, FOrder: []string{f.Name()}}
+		}
+		if shapeOf(T) == shBool {
+			return &Value{K: VBool, T: T, Term: term}
+		}
+	}
+	return intV(term, T)
 }
 
 func (vc *VC) isGlobal(v *types.Var) bool {
@@ -689,23 +716,37 @@ func (vc *VC) mapLookup(st *State, x *ast.IndexExpr) (*Value, string) {
 func (vc *VC) mapGet(st *State, mapT types.Type, u *types.Map, m, k string) (*Value, string) {
 	mp := mapCompPrefix(mapT)
 	dom := vc.heapGet(st, mp+".dom", "(Array Int (Array Int Bool))")
-	in := smtAnd(smtNot(smtEq(m, "0")), sel(sel(dom, m), k))
-	val := vc.loadShape(st, mp+".val", u.Elem(), 2, func(h string) string { return sel(sel(h, m), k) })
+	in := smtAnd(smtNot(smtEq(m, "0")), sel2(dom, m, k))
+	val := vc.loadShape(st, mp+".val", u.Elem(), 2, func(h string) string { return sel2(h, m, k) })
 	zero := vc.zeroValue(u.Elem())
 	return vc.iteValue(in, val, zero), in
+}
+
+// mapLen: number of keys, an uninterpreted function of the domain component and the map reference.
+func (vc *VC) mapLen(st *State, mapT types.Type, m string) string {
+	vc.declareFun("maplen", "((Array Int Bool) Int) Int")
+	vc.addAxiom("(forall ((d (Array Int Bool)) (m Int)) (! (>= (maplen d m) 0) :pattern ((maplen d m))))")
+	dom := vc.heapGet(st, mapCompPrefix(mapT)+".dom", "(Array Int (Array Int Bool))")
+	return smtIte(smtEq(m, "0"), "0", app("maplen", dom, m))
+}
+
+func (vc *VC) mapLenZero(st *State, mapT types.Type, m string) {
+	vc.declareFun("maplen", "((Array Int Bool) Int) Int")
+	dom := vc.heapGet(st, mapCompPrefix(mapT)+".dom", "(Array Int (Array Int Bool))")
+	st.assume(smtEq(app("maplen", dom, m), "0"))
 }
 
 func (vc *VC) mapSet(st *State, mapT types.Type, u *types.Map, m, k string, val *Value) {
 	mp := mapCompPrefix(mapT)
 	dom := vc.heapGet(st, mp+".dom", "(Array Int (Array Int Bool))")
-	vc.heapUpdate(st, mp+".dom", "(Array Int (Array Int Bool))", sto(dom, m, sto(sel(dom, m), k, "true")))
-	vc.storeShape(st, mp+".val", u.Elem(), 2, func(h, v string) string { return sto(h, m, sto(sel(h, m), k, v)) }, val)
+	vc.heapUpdate(st, mp+".dom", "(Array Int (Array Int Bool))", m, sto2(dom, m, k, "true"))
+	vc.storeShape(st, mp+".val", u.Elem(), 2, m, func(h, v string) string { return sto2(h, m, k, v) }, val)
 }
 
 func (vc *VC) mapDelete(st *State, mapT types.Type, m, k string) {
 	mp := mapCompPrefix(mapT)
 	dom := vc.heapGet(st, mp+".dom", "(Array Int (Array Int Bool))")
-	vc.heapUpdate(st, mp+".dom", "(Array Int (Array Int Bool))", smtIte(smtEq(m, "0"), dom, sto(dom, m, sto(sel(dom, m), k, "false"))))
+	vc.heapUpdate(st, mp+".dom", "(Array Int (Array Int Bool))", m, smtIte(smtEq(m, "0"), dom, sto2(dom, m, k, "false")))
 }
 
 func (vc *VC) evalSliceExpr(st *State, x *ast.SliceExpr) *Value {
@@ -757,9 +798,9 @@ func (vc *VC) evalSliceExpr(st *State, x *ast.SliceExpr) *Value {
 
 func (vc *VC) substr(st *State, s, lo, hi string, T types.Type) *Value {
 	vc.declareFun("substr", "(Int Int Int) Int")
-	vc.addAxiom("(forall ((s Int) (i Int) (j Int)) (! (=> (and (<= 0 i) (<= i j) (<= j (strlen s))) (= (strlen (substr s i j)) (- j i))) :pattern ((substr s i j))))")
-	vc.addAxiom("(forall ((s Int) (i Int) (j Int) (k Int)) (! (=> (and (<= 0 i) (<= 0 k) (< k (- j i)) (<= j (strlen s))) (= (strat (substr s i j) k) (strat s (+ i k)))) :pattern ((strat (substr s i j) k))))")
-	vc.addAxiom("(forall ((s Int)) (! (= (substr s 0 (strlen s)) s) :pattern ((substr s 0 (strlen s)))))")
+	vc.addAxiomKeyed([]string{"substr"}, "(forall ((s Int) (i Int) (j Int)) (! (=> (and (<= 0 i) (<= i j) (<= j (strlen s))) (= (strlen (substr s i j)) (- j i))) :pattern ((substr s i j))))")
+	vc.addAxiomKeyed([]string{"substr"}, "(forall ((s Int) (i Int) (j Int) (k Int)) (! (=> (and (<= 0 i) (<= 0 k) (< k (- j i)) (<= j (strlen s))) (= (strat (substr s i j) k) (strat s (+ i k)))) :pattern ((strat (substr s i j) k))))")
+	vc.addAxiomKeyed([]string{"substr"}, "(forall ((s Int)) (! (= (substr s 0 (strlen s)) s) :pattern ((substr s 0 (strlen s)))))")
 	return intV(app("substr", s, lo, hi), T)
 }
 
@@ -804,8 +845,8 @@ func (vc *VC) evalCompositeLit(st *State, x *ast.CompositeLit) *Value {
 	case *types.Map:
 		m := vc.allocRef(st, "maplit")
 		mp := mapCompPrefix(T)
-		dom := vc.heapGet(st, mp+".dom", "(Array Int (Array Int Bool))")
-		vc.heapUpdate(st, mp+".dom", "(Array Int (Array Int Bool))", sto(dom, m, "((as const (Array Int Bool)) false)"))
+		vc.rowUpdate(st, mp+".dom", "(Array Int (Array Int Bool))", m, func(i, nc, oc string) string { return smtNot(nc) })
+		vc.mapLenZero(st, T, m)
 		for _, el := range x.Elts {
 			kv := el.(*ast.KeyValueExpr)
 			k := vc.evalExpr(st, kv.Key)
@@ -852,6 +893,9 @@ func (vc *VC) convertTo(st *State, v *Value, from, to types.Type) *Value {
 			return intV("0", to)
 		}
 		return vc.toInterface(st, v, from, to)
+	}
+	if v.K == VInt && v.Term == "0" && v.T == nil && (shapeOf(to) == shSlice) {
+		return vc.zeroValue(to)
 	}
 	if v.K == VInt || v.K == VBool {
 		if v.T == nil || !types.Identical(v.T, to) {
